@@ -54,10 +54,15 @@ static const int FLEN[8][2] = {{300, 280}, {520, 260}, {600, 600}, {700, 513}, {
 #define NF (8 * 6)
 /* G: the distance matrices d_estimation() builds (exact mode and anchor mode): every entry = substring edit distance + a length term in [0,1) */
 #define NG 6
+/* H: texts with TWO approximate occurrences of a multi-block pattern (a poorer and a better one, in both orders, separated by unrelated symbols):
+   the band of active blocks has to shrink after the first hit and grow again for the second */
+static const int HM[7] = {70, 100, 130, 200, 259, 500, 1000};
+static const int HM8[4] = {20, 30, 40, 60};
+#define NH ((7 + 4) * 3 * 2 * 2 * 2)
 
 uint64_t vh_total(int tier)
 {
-        return secA(tier) + secC(tier) + (uint64_t)ND * DSLICES + secE(tier) + NF + NG;
+        return secA(tier) + secC(tier) + (uint64_t)ND * DSLICES + secE(tier) + NF + NG + NH;
 }
 
 static void judge(const char* which, int got, int want, const uint8_t* t, int n, const uint8_t* p, int m)
@@ -128,6 +133,8 @@ void vh_describe(uint64_t id, int tier, char* buf, size_t n)
         }else if(id < secA(tier) + secC(tier) + ND * DSLICES + secE(tier)){
                 snprintf(buf, n, "E: one-edit family around binary text #%llu of length %d at 8-bit width (3 blocks)",
                          (unsigned long long)(id - secA(tier) - secC(tier) - ND * DSLICES), tier ? 18 : 14);
+        }else if(id >= secA(tier) + secC(tier) + ND * DSLICES + secE(tier) + NF + NG){
+                snprintf(buf, n, "H: two-occurrence text #%llu", (unsigned long long)(id - secA(tier) - secC(tier) - ND * DSLICES - secE(tier) - NF - NG));
         }else if(id >= secA(tier) + secC(tier) + ND * DSLICES + secE(tier) + NF){
                 snprintf(buf, n, "G: d_estimation distance matrices on a deterministic set #%llu (lengths 120..2600)", (unsigned long long)(id - secA(tier) - secC(tier) - ND * DSLICES - secE(tier) - NF));
         }else{
@@ -240,6 +247,47 @@ int vh_case(uint64_t id, int tier)
                 det_text(len, t, (uint64_t)vh_seed);
                 family(t, len, stride, (int)(k % DSLICES), DSLICES, len <= 128, 13);
                 vh_count("block_boundary_family_cases");
+        }else if(id >= secA(tier) + secC(tier) + ND * DSLICES + secE(tier) + NF + NG){
+                int k = (int)(id - secA(tier) - secC(tier) - ND * DSLICES - secE(tier) - NF - NG);
+                int order = k % 2, e2 = ((k / 2) % 2) ? 2 : 0, e1 = ((k / 4) % 2) ? 12 : 6, sepi = (k / 8) % 3, mi = k / 24;
+                int w8 = mi >= 7, m = w8 ? HM8[mi - 7] : HM[mi];
+                int sep = w8 ? (const int[]){12, 20, 40}[sepi] : (const int[]){100, 150, 300}[sepi];
+                int sigma = w8 ? 4 : 13, n = 0, i, q;
+                static uint8_t pat[1100], c1[1100], c2[1100], text[4096];
+                uint64_t st = 606 + (uint64_t)k;
+                if(w8){
+                        e1 = e1 / 3;
+                }
+                for(i = 0; i < m; i++){
+                        st = st * 6364136223846793005ULL + 1442695040888963407ULL;
+                        pat[i] = (uint8_t)((st >> 33) % (uint64_t)sigma);
+                }
+                memcpy(c1, pat, (size_t)m);
+                memcpy(c2, pat, (size_t)m);
+                for(q = 0; q < e1; q++){
+                        c1[(q * 7 + 3) % m] = (uint8_t)((c1[(q * 7 + 3) % m] + 1) % sigma);      /* the poorer copy */
+                }
+                for(q = 0; q < e2; q++){
+                        c2[(q * 11 + 5) % m] = (uint8_t)((c2[(q * 11 + 5) % m] + 2) % sigma);    /* the better copy */
+                }
+                for(i = 0; i < 20; i++){
+                        st = st * 6364136223846793005ULL + 1442695040888963407ULL;
+                        text[n++] = (uint8_t)((st >> 33) % (uint64_t)sigma);
+                }
+                memcpy(text + n, order ? c2 : c1, (size_t)m);
+                n += m;
+                for(i = 0; i < sep; i++){
+                        st = st * 6364136223846793005ULL + 1442695040888963407ULL;
+                        text[n++] = (uint8_t)((st >> 33) % (uint64_t)sigma);
+                }
+                memcpy(text + n, order ? c1 : c2, (size_t)m);
+                n += m;
+                for(i = 0; i < 20; i++){
+                        st = st * 6364136223846793005ULL + 1442695040888963407ULL;
+                        text[n++] = (uint8_t)((st >> 33) % (uint64_t)sigma);
+                }
+                check_all(text, n, pat, m, w8);
+                vh_count("two_occurrence_texts");
         }else if(id >= secA(tier) + secC(tier) + ND * DSLICES + secE(tier) + NF){
                 int k = (int)(id - secA(tier) - secC(tier) - ND * DSLICES - secE(tier) - NF);
                 static const int LENS[6][4] = {{2600, 2600, 101, 120}, {1200, 1100, 300, 900}, {2200, 400, 2100, 150}, {600, 600, 600, 590}, {5000, 2500, 1000, 200}, {130, 120, 125, 128}};
